@@ -53,6 +53,12 @@ def r11_1(run, model):
     if "(" in post:
         run.ob("R11.1", "call postfix|tighter than every binary operator except .", post["("] > top and post["("] < inf.get(".", (99, 99))[0] + 1, site(TB.EXPR, None), f"call {post['(']} vs binary max {top}",
                witness="a + f(x) parses as (a + f)(x)")
+    if "(" in post and pre and "." in inf:
+        ok = post["("] >= max(pre.values()) and post["("] < inf["."][1]
+        run.ob("R11.1", "call postfix|binds under a prefix operator and applies to the whole member path", ok, site(TB.EXPR, None),
+               f"call {post['(']}; prefix operand parsed with {max(pre.values())}; right power of `.` {inf['.'][1]}",
+               witness="-tick() is read as `-tick` (the empty argument list is lost in the re-association the lowering attempts): no diagnostic, "
+                       "tick is never called; !q.is_empty() is rejected; -origin(3).x becomes (-origin(3)).x")
     extra = sorted(set(inf) - {s for t in TIERS for s in t} - {"."})
     run.ob("R11.1", "infix table|no undocumented operator", not extra, site(TB.EXPR, None), f"undocumented infix operators: {extra}")
 
